@@ -180,3 +180,31 @@ def fields_mapping_facts():
     reorder = [c for c in ast.walk(nf) if isinstance(c, ast.Call) and ast.unparse(c.func).split(".")[-1] in ("sorted", "set", "frozenset", "reversed", "sort", "reverse")]
     facts["order"] = "signatures" in iters and any(it.endswith(".split(',')") for it in iters) and not reorder
     return facts
+
+
+def guarded_list_items(fn_node):
+    """[(guard source or None, item expr)] for every element a function puts into a local list by `x.append(e)`, `x.extend([..])`,
+    `x += [..]` at the top level of its body or directly under an `if` (one level) - the usual ways of building a small table"""
+    out = []
+
+    def items_of(st):
+        if isinstance(st, ast.Expr) and isinstance(st.value, ast.Call) and isinstance(st.value.func, ast.Attribute) and st.value.args:
+            if st.value.func.attr == "append":
+                return [st.value.args[0]]
+            if st.value.func.attr == "extend" and isinstance(st.value.args[0], (ast.List, ast.Tuple)):
+                return list(st.value.args[0].elts)
+        if isinstance(st, ast.AugAssign) and isinstance(st.op, ast.Add) and isinstance(st.value, (ast.List, ast.Tuple)):
+            return list(st.value.elts)
+        return []
+
+    def walk(body, guard):
+        for st in body:
+            for it in items_of(st):
+                out.append((guard, it))
+            if isinstance(st, ast.If) and guard is None:
+                walk(st.body, ast.unparse(st.test))
+                walk(st.orelse, "not (" + ast.unparse(st.test) + ")")
+            elif isinstance(st, (ast.For, ast.With)):
+                walk(st.body, guard)
+    walk(fn_node.body, None)
+    return out
